@@ -25,6 +25,7 @@ use fuel_asm::RegId;
 use fuel_tx::{
     Input,
     Output,
+    ValidityError,
     field::{
         Owner,
         Script,
@@ -255,7 +256,13 @@ where
             .unwrap_or_default();
 
         let initial_balances = metadata.balances();
-        let runtime_balances = initial_balances.try_into()?;
+        let runtime_balances: RuntimeBalances = initial_balances.try_into()?;
+        // The balance table in VM memory has room for `max_inputs` assets. The base
+        // asset always has an entry, so a transaction whose inputs are all of distinct
+        // non-base assets can need one entry more than it has inputs.
+        if runtime_balances.len() > self.max_inputs() as usize {
+            return Err(ValidityError::TransactionInputsMax.into())
+        }
         self.init_inner(tx, metadata.balances(), runtime_balances, gas_limit)?;
 
         if let Some(script) = self.transaction().as_script() {
